@@ -9,7 +9,7 @@ PROP = "C01"
 
 def check_spec(acc, spec, tier):
     nv = len(spec["vars"])
-    for cfg in S.configs_for(spec, tier, full=SC.family_of(spec) in ("F3", "F4")):
+    for cfg in S.configs_for(spec, tier, full=SC.family_of(spec) in ("F3", "F4", "F7")):
         modes = [("enumerate", None)]
         if tier == "thorough" or SC.family_of(spec) != "F1" or cfg[:3] == ("bc", "first", "min"):
             objs = range(nv) if nv <= 4 else (0, nv - 1)
